@@ -14,7 +14,7 @@ import (
 	"pgregory.net/rapid"
 )
 
-var pkgNames = []string{"user", "pa", "pb", "pc"}
+var pkgNames = []string{"user", "pa", "pb", "pc", "user", "pa", "pb", "pc", "pd", "pe"}
 var symNames = []string{"a", "b", "f", "g", "h", "m"}
 
 type pg struct {
@@ -31,7 +31,15 @@ func (g *pg) pick(l string, o ...string) string {
 	return rapid.SampledFrom(o).Draw(g.t, l)
 }
 func (g *pg) sym() string { return g.pick("sym", symNames...) }
-func (g *pg) pkg() string { return g.pick("pkg", pkgNames...) }
+func (g *pg) pkg() string {
+	p := g.pick("pkg", pkgNames...)
+	if p == "lisp" {
+		// the program works inside the language package itself: it may change
+		// what later packages start with
+		g.stats["touches-language-package"]++
+	}
+	return p
+}
 
 // ref: an expression that references a name, unqualified or qualified.
 func (g *pg) ref() gen.Val {
@@ -70,7 +78,7 @@ func (g *pg) body() gen.Val {
 }
 
 func (g *pg) stmt(depth int) gen.Val {
-	switch g.n(0, 21, "stmt") {
+	switch g.n(0, 23, "stmt") {
 	case 0, 1:
 		g.stats["in-package"]++
 		return gen.Call("in-package", gen.QS(g.pkg()))
@@ -191,6 +199,31 @@ func (g *pg) stmt(depth int) gen.Val {
 			return gen.Call("load-string", gen.Str(gen.RenderProgram(forms)))
 		}
 		return g.ref()
+	case 23:
+		// a PRIVATE binding made inside the language package (by a nested load,
+		// which restores the current package): packages created afterwards start
+		// with the language package's EXPORTS, so they do not see it
+		g.stats["private-language-binding"]++
+		nf := []gen.Val{gen.Call("in-package", gen.QS("lisp")), gen.Call("set", gen.QS(g.sym()), g.newVal())}
+		g.nested = append(g.nested, nf)
+		return gen.Call("load-string", gen.Str(gen.RenderProgram(nf)))
+	case 22:
+		// definitions do not depend on what `set` / `progn` mean HERE: the
+		// definer macros are written against the language package
+		g.stats["definer-under-rebound-helpers"]++
+		name := g.sym()
+		def := gen.L(gen.S(g.pick("definer", "defun", "defun", "defmacro")), gen.S(name), gen.L(gen.S("x")), gen.Call("list", gen.S("x"), g.newVal()))
+		use := gen.L(gen.S(name), gen.I(1))
+		switch g.n(0, 3, "rebind") {
+		case 0:
+			return gen.L(gen.S("let"), gen.L(gen.L(gen.S("set"), gen.L(gen.S("lambda"), gen.L(gen.S("a"), gen.S("b")), gen.QS("mine"))), gen.L(gen.S("progn"), gen.I(5))), def, use)
+		case 1:
+			return gen.L(gen.S("flet"), gen.L(gen.L(gen.S("set"), gen.L(gen.S("a"), gen.S("b")), gen.I(0))), def, use)
+		case 2:
+			return gen.L(gen.S("lisp:progn"), gen.Call("lisp:set", gen.QS("set"), gen.L(gen.S("lisp:lambda"), gen.L(gen.S("a"), gen.S("b")), gen.QS("mine"))), def, use)
+		default:
+			return gen.L(gen.S("lisp:progn"), gen.Call("lisp:set", gen.QS("progn"), g.newVal()), def, use)
+		}
 	case 18:
 		// a lexical binding shadows the package binding
 		name := g.sym()
@@ -225,6 +258,22 @@ func genCase() *rapid.Generator[Case] {
 		g := &pg{t: t, stats: map[string]int{}}
 		n := rapid.IntRange(3, 22).Draw(t, "nstmts")
 		var forms []gen.Val
+		if rapid.IntRange(0, 5).Draw(t, "scripted-private") == 0 {
+			// a directed opening: a private binding appears in the language
+			// package, THEN a package is created: it must not inherit it
+			g.stats["scripted-private-language-binding"]++
+			sym := g.sym()
+			np := g.pick("newpkg", "pd", "pe", "pa", "pq")
+			add := func(v gen.Val) { forms = append(forms, g.wrap(v)) }
+			nf := []gen.Val{gen.Call("in-package", gen.QS("lisp")), gen.Call("set", gen.QS(sym), g.newVal())}
+			g.nested = append(g.nested, nf)
+			add(gen.Call("load-string", gen.Str(gen.RenderProgram(nf))))
+			add(gen.Call("in-package", gen.QS(np)))
+			add(gen.S(sym))
+			add(gen.Call("list", gen.S("lisp:"+sym)))
+			add(gen.L(gen.S("defun"), gen.S("probe-it"), gen.L(), gen.S(sym)))
+			add(gen.L(gen.S("probe-it")))
+		}
 		if rapid.IntRange(0, 3).Draw(t, "scripted") == 0 {
 			// a directed opening: Q uses P, P changes, Q uses P again -- the
 			// second use-package copies the bindings as they are THEN
@@ -376,9 +425,11 @@ func check(cs Case, c *vcommon.Ctx) *vcommon.Failure {
 			return vcommon.Failf("registry/exports", "exports of %s: real %v reference %v\n%s", pn, ex, rex, src)
 		}
 	}
-	// a new package starts with the language package's exports
-	for _, pn := range []string{"pa", "pb", "pc"} {
-		if p := reg.Package(pn); p != nil {
+	// a new package starts with the language package's exports (stated against
+	// the pristine language package: programs that export or rebind names IN
+	// the language package are judged by the reference interpreter above)
+	for _, pn := range []string{"pa", "pb", "pc", "pd", "pe"} {
+		if p := reg.Package(pn); p != nil && cs.Stats["touches-language-package"] == 0 {
 			lang := reg.Package(lisp.DefaultLangPackage)
 			for _, name := range []string{"car", "let", "defun", "handler-bind", "+"} {
 				lv, _ := lang.Symbol(name)
